@@ -31,6 +31,8 @@ fn main() {
         "twins" => twins::generate(seed, n, &mut *out),
         "live" => live::live(seed, n, &mut *out),
         "teardown" => live::teardown(seed, n, &mut *out),
+        "longspan" => live::longspan(seed, n, &mut *out),
+        "adrop" => live::adrop(seed, n, &mut *out),
         "sys" => match arg(&args, "--replay") {
             Some(p) => sys::replay(p, &mut *out),
             None => sys::generate(seed, arg(&args, "--first").and_then(|s| s.parse().ok()).unwrap_or(0), n, arg(&args, "--profile").unwrap_or("mixed"), &mut *out),
